@@ -2,3 +2,4 @@ import AtomicaModel.Basic
 import AtomicaModel.Grid
 import AtomicaModel.Engine
 import AtomicaModel.EngineIO
+import AtomicaModel.Series
